@@ -94,6 +94,7 @@ type record struct {
 	args    []any
 	enabled bool
 	by      string
+	at      int64 // the instant the logger stamped the record with
 }
 
 type wr struct {
@@ -409,6 +410,12 @@ func (w *world) main() {
 		name := fmt.Sprintf("client%d", c)
 		simrt.GoNamed(name, "harness", func() {
 			for i := 0; i < n; i++ {
+				// the clock moves between records: by nothing, a fraction of a
+				// second, seconds or an hour
+				if d := []time.Duration{0, 0, 300 * time.Millisecond, 2 * time.Second, time.Hour}[ch("op.pause", 5)]; d > 0 {
+					simrt.Probe("clock_moves_between_records")
+					simrt.Sleep(d)
+				}
 				if ch("op.derive", 3) == 0 {
 					w.derive(name)
 				} else {
@@ -608,6 +615,7 @@ func (w *world) log(by string, n *node) {
 	w.recs = append(w.recs, r)
 	w.hist = append(w.hist, fmt.Sprintf("%s: n%d.log(level=%d, method=%d, %s, %d attrs)", by, n.id, r.level, r.method, r.token, len(r.attrs)))
 	emit(n.l, r)
+	r.at = simrt.LastNow()
 }
 
 // reference: the line this record gives when logged alone.
@@ -617,7 +625,9 @@ func (w *world) reference(r *record) string {
 	for _, s := range r.node.chain {
 		l = applyStep(l, s)
 	}
+	simrt.SetClockOverride(r.at)
 	emit(l, r)
+	simrt.SetClockOverride(0)
 	return buf.String()
 }
 
@@ -648,6 +658,8 @@ func (w *world) folded(r *record) (string, bool) {
 	for i, a := range acc {
 		rr.args[i] = a
 	}
+	simrt.SetClockOverride(r.at)
 	emit(l, &rr)
+	simrt.SetClockOverride(0)
 	return buf.String(), true
 }
